@@ -497,6 +497,27 @@ func newC05Context(res *prodResult) *c05Context {
 			c.connAt = append(c.connAt, p.Seq)
 		}
 	}
+	// a batch that arrives under a later epoch than the producer's first one proves that the epoch was
+	// bumped before it was sent (the ap.outcome hook of the failing message fires after the bump: on a loaded
+	// machine another goroutine can stamp and send a message in between)
+	first := map[int64]int16{}
+	for _, p := range res.produced {
+		for _, b := range p.Batches {
+			if b.PID < 0 {
+				continue
+			}
+			if e, ok := first[b.PID]; !ok || b.Epoch < e {
+				first[b.PID] = b.Epoch
+			}
+		}
+	}
+	for _, p := range res.produced {
+		for _, b := range p.Batches {
+			if b.PID >= 0 && b.Epoch > first[b.PID] {
+				c.bumpAt = append(c.bumpAt, p.Seq-1)
+			}
+		}
+	}
 	for _, ev := range res.hooks {
 		if ev.Point == "ap.outcome" && ev.HasErr && ev.MI.HasSeq {
 			c.bumpAt = append(c.bumpAt, ev.Seq)
